@@ -48,7 +48,7 @@ func (w *World) govSubmit(a *Action, idx int) *StepResult {
 	if err != nil {
 		panic(sim.HarnessError{Msg: "submit proposal msg: " + err.Error()})
 	}
-	w.P.QueueTx(fmt.Sprintf("%d:%s", idx, a.Kind), GovProposer, sp)
+	w.P.Chain.QueueTx(fmt.Sprintf("%d:%s", idx, a.Kind), GovProposer, sp)
 	w.busy[GovProposer] = true
 	w.queued = append(w.queued, queuedTx{idx: idx, acc: GovProposer, gov: true})
 	return &StepResult{}
@@ -74,7 +74,7 @@ func (w *World) queueVotes() {
 		if len(msgs) == 0 {
 			continue
 		}
-		w.P.QueueTx("vote:"+name, name, msgs...)
+		w.P.Chain.QueueTx("vote:"+name, name, msgs...)
 		w.busy[name] = true
 		w.queued = append(w.queued, queuedTx{idx: -1, acc: name})
 	}
